@@ -755,6 +755,11 @@ impl Engine {
         for p in &out.dealloc_problems {
             let kind = p.split(' ').take(6).collect::<Vec<_>>().join("-").replace(|c: char| c.is_ascii_digit(), "#");
             self.viol("C10", &format!("{}|{}", op, kind), &hist, Some(ai), p);
+            if p.contains("before unlinking") || p.contains("not a page table of the hierarchy") || p.contains("still holds an entry") {
+                // C09: at the moment a frame is released it stops being page-table memory of the hierarchy; a hierarchy that still
+                // links to it (or a release of memory that is not an empty table) makes the mapper touch memory it does not own
+                self.viol("C09", &format!("{}|releases-memory-the-hierarchy-still-uses-or-never-owned|{}", op, kind), &hist, Some(ai), p);
+            }
             ok = false;
         }
         if out.requests != 0 || !out.given.is_empty() {
